@@ -30,6 +30,123 @@ def _exp_arg(node, mod):
     return None
 
 
+class _NoBin(Exception):
+    pass
+
+
+class _SubN(ast.NodeTransformer):
+    def __init__(self, env):
+        self.env = env
+
+    def visit_Name(self, n):
+        if isinstance(n.ctx, ast.Load) and n.id in self.env:
+            return ast.parse(unparse(self.env[n.id]), mode="eval").body
+        return n
+
+
+def _dft_bin(df, normalize):
+    """(frequency variable, expression of one bin, result is a list) for dft(blk, freqs, normalize) - guards on the
+    flag evaluated (decision table), locals resolved, comprehensions over the frequencies composed, a loop that appends
+    to a fresh list read as the list of what it appends"""
+    from ..dtable import Facts, walk
+    F = Facts(truths={"normalize": normalize, "bool(normalize)": normalize, "not normalize": not normalize})
+    env, seqs, lists, alias = {}, {}, set(), {"freqs"}
+
+    def sub(e, extra=None):
+        m = dict(env)
+        m.update(extra or {})
+        return _SubN(m).visit(ast.parse(unparse(e), mode="eval").body)
+
+    def source(e):
+        """'freqs' for the frequencies themselves (or iter(freqs) / an alias), a sequence name, or None"""
+        if isinstance(e, ast.Name) and e.id in alias:
+            return "freqs"
+        if isinstance(e, ast.Call) and unparse(e.func) in ("iter", "list", "tuple") and len(e.args) == 1:
+            return source(e.args[0])
+        if isinstance(e, ast.Name) and e.id in seqs:
+            return e.id
+        return None
+
+    def comp(c):
+        if not (isinstance(c, (ast.GeneratorExp, ast.ListComp)) and len(c.generators) == 1 and not c.generators[0].ifs
+                and isinstance(c.generators[0].target, ast.Name)):
+            return None
+        src = source(c.generators[0].iter)
+        v = c.generators[0].target.id
+        if src == "freqs":
+            return (v, sub(c.elt, {v: ast.Name(id=v, ctx=ast.Load())}), isinstance(c, ast.ListComp))
+        if src is not None:
+            fv, inner, _l = seqs[src]
+            return (fv, sub(c.elt, {v: inner}), isinstance(c, ast.ListComp))
+        return None
+
+    def flags(name, value):
+        t = F.truths.get(unparse(value))
+        if t is not None:
+            F.truths[name] = t
+            F.truths["not " + name] = not t
+
+    def run(stmts, loopvar=None):
+        w = walk(stmts, F, "dft", strict=True)
+        for st in w.ran:
+            if isinstance(st, ast.Assign) and len(st.targets) == 1 and isinstance(st.targets[0], ast.Name):
+                nm, v = st.targets[0].id, st.value
+                flags(nm, v)
+                if source(v) == "freqs" and not isinstance(v, (ast.GeneratorExp, ast.ListComp)):
+                    alias.add(nm)
+                    continue
+                c = comp(v)
+                if c is not None:
+                    seqs[nm] = c
+                    continue
+                if (isinstance(v, ast.List) and not v.elts) or (isinstance(v, ast.Call) and unparse(v.func) == "list" and not v.args):
+                    lists.add(nm)
+                    continue
+                env[nm] = sub(v)
+                continue
+            if isinstance(st, ast.AugAssign) and isinstance(st.target, ast.Name) and st.target.id in env:
+                env[st.target.id] = ast.BinOp(left=env[st.target.id], op=st.op, right=sub(st.value))
+                continue
+            if isinstance(st, ast.For) and isinstance(st.target, ast.Name) and source(st.iter) == "freqs" and not st.orelse \
+                    and loopvar is None:
+                env.pop(st.target.id, None)
+                r = run(st.body, st.target.id)
+                if r is not None:
+                    return r
+                continue
+            if isinstance(st, ast.Expr) and isinstance(st.value, ast.Call) and isinstance(st.value.func, ast.Attribute) \
+                    and st.value.func.attr == "append" and isinstance(st.value.func.value, ast.Name) \
+                    and st.value.func.value.id in lists and len(st.value.args) == 1 and loopvar is not None:
+                L = st.value.func.value.id
+                if L in seqs:
+                    raise _NoBin("two appends to %s" % L)
+                seqs[L] = (loopvar, sub(st.value.args[0]), True)
+                continue
+            if isinstance(st, ast.Return) and loopvar is None:
+                v = st.value
+                if isinstance(v, ast.Name) and v.id in seqs:
+                    return seqs[v.id]
+                if isinstance(v, ast.Call) and unparse(v.func) == "list" and len(v.args) == 1 \
+                        and isinstance(v.args[0], ast.Name) and v.args[0].id in seqs:
+                    fv, e, _l = seqs[v.args[0].id]
+                    return (fv, e, True)
+                c = comp(v) if v is not None else None
+                if c is not None:
+                    return c
+                raise _NoBin("returns %s" % short(st))
+            if isinstance(st, (ast.Pass,)) or (isinstance(st, ast.Expr) and isinstance(st.value, ast.Constant)):
+                continue
+            raise _NoBin("statement %s" % short(st))
+        return None
+    try:
+        r = run(docstring_free(df.body))
+    except AnalysisError as ex:
+        raise _NoBin(str(ex))
+    if r is None:
+        raise _NoBin("no return reached")
+    return r
+
+
 def run(chk, repo):
     fmod, amod = repo.mod(LF), repo.mod(LA)
     WF = lambda q: "%s:%s" % (fmod.relpath, q)
@@ -134,68 +251,56 @@ def run(chk, repo):
         chk.decide(not carried, "C12.dft", WA("dft"), "loop over the frequencies carries no state between bins",
                    why="%s keep(s) the value of the previous frequency: every bin after the first depends on the bins before it"
                        % sorted(carried), node=lp_)
-    gens = [n for n in ast.walk(df) if isinstance(n, (ast.GeneratorExp, ast.ListComp))]
-    outer = [g for g in gens if unparse(g.generators[0].iter) == "freqs"]
-    chk.require(len(outer) == 1, "dft: generator over freqs not found")
-    f = unparse(outer[0].generators[0].target)
-    e = outer[0].elt
-    ok = isinstance(e, ast.Call) and unparse(e.func) == "sum" and isinstance(e.args[0], ast.GeneratorExp)
+    # what one bin is, as an expression of its frequency, with and without normalisation - whether the bins are built
+    # by comprehensions or by a loop that appends them
+    bins = {}
+    for norm in (True, False):
+        try:
+            bins[norm] = _dft_bin(df, norm)
+        except _NoBin as ex:
+            raise AnalysisError("dft: bins not interpretable (normalize=%s): %s" % (norm, ex))
     sign_dft = None
-    if ok:
-        ig = e.args[0]
-        ok = unparse(ig.generators[0].iter) == "enumerate(blk)" and isinstance(ig.generators[0].target, ast.Tuple)
+    for norm in (True, False):
+        f, e, lst = bins[norm]
+        den = None
+        if isinstance(e, ast.BinOp) and isinstance(e.op, ast.Div):
+            e, den = e.left, e.right
+        ok = isinstance(e, ast.Call) and unparse(e.func) == "sum" and len(e.args) == 1 and isinstance(e.args[0], ast.GeneratorExp) \
+            and len(e.args[0].generators) == 1 and not e.args[0].generators[0].ifs
         if ok:
-            n, xn = [unparse(t) for t in ig.generators[0].target.elts]
-            t = ig.elt
-            ok = isinstance(t, ast.BinOp) and isinstance(t.op, ast.Mult)
+            ig = e.args[0]
+            ok = unparse(ig.generators[0].iter) == "enumerate(blk)" and isinstance(ig.generators[0].target, ast.Tuple) \
+                and len(ig.generators[0].target.elts) == 2
             if ok:
-                a, b = (t.left, t.right) if isinstance(t.right, ast.Call) else (t.right, t.left)
-                earg = _safe(lambda: _exp_arg(b, amod))
-                ok = unparse(a) == xn and earg is not None
+                n, xn = [unparse(t) for t in ig.generators[0].target.elts]
+                t = ig.elt
+                ok = isinstance(t, ast.BinOp) and isinstance(t.op, ast.Mult)
                 if ok:
-                    sign_dft = earg / (J * RF.sym(n) * RF.sym(f))
-                    ok = earg == -J * RF.sym(n) * RF.sym(f)
-    chk.decide(ok, "C12.dft", WA("dft"), short(outer[0], 120), why="dft kernel must be x_n * exp(-j*n*f) summed over "
-               "the block, for every requested frequency", node=outer[0])
+                    a_, b_ = (t.left, t.right) if isinstance(t.right, ast.Call) else (t.right, t.left)
+                    earg = _safe(lambda: _exp_arg(b_, amod))
+                    ok = unparse(a_) == xn and earg is not None
+                    if ok:
+                        sign_dft = earg / (J * RF.sym(n) * RF.sym(f))
+                        ok = earg == -J * RF.sym(n) * RF.sym(f)
+        chk.decide(ok, "C12.dft", WA("dft"), "normalize=%s: bin(%s) = %s" % (norm, f, short(e, 110)),
+                   why="dft kernel must be x_n * exp(-j*n*f) summed over the block, for every requested frequency", node=df)
+        if norm:
+            chk.decide(den is not None and unparse(den) == "len(blk)", "C12.dft", WA("dft"),
+                       "bins divided by %s" % (unparse(den) if den is not None else "nothing"),
+                       why="the normalised form divides every bin by the block length len(blk) (so the DC bin is the block "
+                           "mean), not by anything else", node=df)
+        else:
+            chk.decide(den is None, "C12.dft", WA("dft"), "unnormalised bins are the sums themselves"
+                       + ("" if den is None else " (divided by %s)" % unparse(den)),
+                       why="unnormalised form returns the sums themselves", node=df)
+        chk.decide(lst, "C12.dft", WA("dft"), "normalize=%s: the result is a list" % norm,
+                   why="documented return type (a generator would be consumed by the first reader)", node=df)
     sign_fr = arg / (J * RF.sym("freq"))
     same = sign_dft is not None and sign_dft == sign_fr
     chk.decide(same, "C12.dft", WA("dft"), "exponent sign: dft %s, freq_response %s"
                % (sign_dft.key() if sign_dft is not None else "?", sign_fr.key()),
                why="one convention exp(-jwk) in both: otherwise the DFT of an impulse response is the conjugate of "
                    "freq_response", node=df)
-    ni = [s for s in docstring_free(df.body) if isinstance(s, ast.If) and unparse(s.test) == "normalize"]
-    ok = len(ni) == 1
-    detail = ""
-    if ok:
-        env = {}
-        ret = None
-        for st in ni[0].body:
-            if isinstance(st, ast.Assign) and isinstance(st.targets[0], ast.Name):
-                env[st.targets[0].id] = st.value
-            elif isinstance(st, ast.Return):
-                ret = st
-        ok = ret is not None and isinstance(ret.value, (ast.ListComp, ast.GeneratorExp))
-        if ok:
-            lc = ret.value
-            v = unparse(lc.generators[0].target)
-            e = lc.elt
-            ok = isinstance(e, ast.BinOp) and isinstance(e.op, ast.Div) and unparse(e.left) == v
-            if ok:
-                den = e.right
-                if isinstance(den, ast.Name) and den.id in env:
-                    den = env[den.id]
-                detail = "bins divided by " + unparse(den)
-                ok = unparse(den) == "len(blk)"
-    chk.decide(ok, "C12.dft", WA("dft"), (detail or (short(ni[0]) if ni else "normalisation missing")),
-               why="the normalised form divides every bin by the block length len(blk) (so the DC bin is the block "
-                   "mean), not by anything else", node=df)
-    last = docstring_free(df.body)[-1]
-    dd = [s for s in docstring_free(df.body) if isinstance(s, ast.Assign) and outer and s.value is outer[0]]
-    okl = isinstance(last, ast.Return) and dd and (
-        unparse(last.value) == "list(%s)" % unparse(dd[0].targets[0]) or
-        (unparse(last.value) == unparse(dd[0].targets[0]) and isinstance(outer[0], ast.ListComp)))
-    chk.decide(bool(okl), "C12.dft", WA("dft"),
-               short(last), why="unnormalised form returns the sums themselves", node=last)
     d = df.args.defaults
     chk.decide(len(d) == 1 and unparse(d[0]) == "True", "C12.dft", WA("dft"), "normalize defaults to True",
                why="documented default", node=df)
